@@ -145,10 +145,17 @@ Proof.
     destruct amt; cbn [fst]; [apply take_bounded; assumption|apply nil_bounded].
 Qed.
 
+Section Release.
+Variable rc : bool.
+Local Notation respond := (Wire.respond rc).
+Local Notation attempt := (Wire.attempt rc).
+Local Notation urlopen := (Wire.urlopen rc).
+Local Notation run_history := (Wire.run_history rc).
+
 Lemma respond_own i r bl tl c :
   (bl = false -> served_tail i r tl) -> bounded i r (fst (fst (respond i r bl tl c))).
 Proof.
-  intros Hs. unfold respond. destruct c as [|k| | | | |a|k1].
+  intros Hs. unfold Wire.respond. destruct c as [|k| | | | |a|k1].
   - pose proof (to_end_own i r bl tl None Hs). destruct (to_end i r bl tl None) as [[d err] it]; exact H.
   - destruct (bl || Nat.leb (k_n r) k && negb (match k_framing r with FEof => true | _ => false end)) eqn:Hc.
     + pose proof (to_end_own i r bl tl None Hs). destruct (to_end i r bl tl None) as [[d err] it]; exact H.
@@ -245,7 +252,7 @@ Proof. destruct a; cbn [apply_after]; rewrite ?put_script; reflexivity. Qed.
 
 Lemma attempt_script M st2 s d i rq r0 more : s_script (fst (attempt M st2 s d i rq r0 more)) = more.
 Proof.
-  unfold attempt. destruct d; [cbn [fst]; rewrite put_script; reflexivity|].
+  unfold Wire.attempt. destruct d; [cbn [fst]; rewrite put_script; reflexivity|].
   match goal with |- context[match ?e with _ => _ end] => destruct e as [|[t r| | |] rest] end;
     try (cbn [fst]; rewrite put_script; reflexivity).
   destruct (q_preload rq).
@@ -257,7 +264,7 @@ Lemma attempt_own M st2 s d i rq r0 more st4 res :
   evs_of (s_evs st2) s = [] ->
   attempt M st2 s d i rq r0 more = (st4, Some res) -> result_ok (r0 :: more) i rq res.
 Proof.
-  intros Hclean. unfold attempt. destruct d; [discriminate|].
+  intros Hclean. unfold Wire.attempt. destruct d; [discriminate|].
   cbn [s_evs]. rewrite evs_head, Hclean. cbn [app].
   destruct (Nat.eq_dec (k_kind r0) 1) as [K1|K1]; [unfold serve; rewrite K1; discriminate|].
   destruct (Nat.eq_dec (k_kind r0) 2) as [K2|K2]; [unfold serve; rewrite K2; discriminate|].
@@ -337,7 +344,7 @@ Qed.
 Theorem dirty_never_yields M st2 s i rq r0 more :
   exists st4, attempt M st2 s true i rq r0 more = (st4, None) /\ evs_of (s_evs st4) s = [].
 Proof.
-  unfold attempt. eexists; split; [reflexivity|].
+  unfold Wire.attempt. eexists; split; [reflexivity|].
   unfold put. destruct (Nat.ltb _ _); cbn [set_q close_sock s_evs s_q]; apply evs_of_closed.
 Qed.
 
@@ -350,7 +357,7 @@ Theorem retry_on_fresh_socket M st2 s d i rq r0 more st4 :
   attempt M st2 s d i rq r0 more = (st4, None) ->
   acquire st4 = (fst (open_sock (set_q st4 (s_q st2))), s_nsid st4, false) /\ s_nsid st4 = s_nsid st2.
 Proof.
-  intros Hlen. unfold attempt.
+  intros Hlen. unfold Wire.attempt.
   set (st3 := mkSt (s_q st2) _ (s_nsid st2) more).
   assert (Hf : forall st4, (put M (close_sock st3 s) None, @None result) = (st4, None) ->
                acquire st4 = (fst (open_sock (set_q st4 (s_q st2))), s_nsid st4, false) /\ s_nsid st4 = s_nsid st2).
@@ -361,4 +368,23 @@ Proof.
   destruct (q_preload rq).
   - destruct (to_end _ _ _ _ _) as [[d0 err] it]. destruct err; [apply Hf|discriminate].
   - destruct (respond _ _ _ _ _) as [[d0 err] a]. discriminate.
+Qed.
+End Release.
+
+(* with release_conn() closing what was not read to its end (rc = true): a response released unread or after a partial
+   read(k) never sends its connection back to the pool open - unless there was nothing to read *)
+Theorem released_unread_is_closed t r bl rest c d err it dirty :
+  Wire.respond true t r bl rest c = (d, err, APut it dirty) ->
+  match c with
+  | CRelease | CKeep => nothing_to_read r bl = true
+  | CReadK k => read_to_end r bl k = true
+  | _ => True
+  end.
+Proof.
+  unfold Wire.respond, released_unread. destruct c as [|k| | | | |a|k1]; try (intros; exact I).
+  - destruct (bl || Nat.leb (k_n r) k && negb (match k_framing r with FEof => true | _ => false end)) eqn:E.
+    + destruct (to_end t r bl rest None) as [[d0 e0] it0]. destruct e0; [discriminate|]. destruct (read_to_end r bl k); [reflexivity|discriminate].
+    + destruct (pull k (k_first r) rest) as [[[ch have] it0] short]. destruct (k_framing r); [|discriminate|]; destruct short; discriminate.
+  - destruct (nothing_to_read r bl); [reflexivity|discriminate].
+  - cbn [andb]. destruct (nothing_to_read r bl); [reflexivity|discriminate].
 Qed.
